@@ -163,6 +163,49 @@ def objRowIdx (numCons : Nat) (st : St) : List Int :=
     (List.range st.objs.length).map (fun i => ((numCons + i : Nat) : Int))
   else [(numCons : Int) + ((objnoUsed st.solver : Int) - 1)]
 
+
+/-! ## What the solver receives as the linear part of an objective
+
+`Set{Linear,Quadratic}Objective(i, obj)` hands the solver a *sparse vector* (`vars()`, `coefs()`); solver APIs apply it per
+variable (`obj[var] := coef`), so it denotes an objective only if it is a finite map (no variable twice).
+`ProblemFlattener::Convert(MutObjective)` builds it as  G terms ++ linear terms produced by flattening the expression ++
+`1 * fixed_var(constant)`  and then calls `LinTerms::sort_terms()` (src/std_constr.cc), modelled here: a `std::map<int,double>`
+accumulates the non-zero entries; only if that map is smaller than the term list (something was merged or dropped) the list is
+rebuilt from the map in key order without zero sums. -/
+
+/-- `var_coef_map[v] += c` on an association list kept in ascending key order (iteration order of `std::map`) -/
+def addTo : List (Nat × Int) → Nat → Int → List (Nat × Int)
+  | [], v, c => [(v, c)]
+  | (w, d) :: m, v, c =>
+    if v < w then (v, c) :: (w, d) :: m
+    else if v = w then (w, d + c) :: m
+    else (w, d) :: addTo m v c
+
+/-- the first loop of `sort_terms`: entries with a non-zero coefficient are accumulated -/
+def accumulate (acc : List (Nat × Int)) : List (Nat × Int) → List (Nat × Int)
+  | [] => acc
+  | t :: l => accumulate (if t.2 ≠ 0 then addTo acc t.1 t.2 else acc) l
+
+/-- `LinTerms::sort_terms()` (default `force_sort = false`) -/
+def sortTerms (l : List (Nat × Int)) : List (Nat × Int) :=
+  let m := accumulate [] l
+  if m.length < l.length then m.filter (fun t => t.2 ≠ 0) else l
+
+/-- the linear part delivered for an objective with G terms `g`, expression-derived linear terms `e` and, when the
+    expression's constant is non-zero, the term `cv` = (fixed variable, 1) -/
+def deliveredLin (g e : List (Nat × Int)) (cv : Option (Nat × Int)) : List (Nat × Int) :=
+  sortTerms (g ++ e ++ cv.toList)
+
+/-- the coefficient a sparse term list *sums up to* for variable `k` (the objective function it denotes when read as a sum) -/
+def sumCoef : List (Nat × Int) → Nat → Int
+  | [], _ => 0
+  | (w, d) :: m, k => (if w = k then d else 0) + sumCoef m k
+
+/-- what a solver holds for variable `k` after `obj[var] := coef` for every entry in order (last entry wins, 0 if absent) -/
+def heldCoef : List (Nat × Int) → Nat → Int
+  | [], _ => 0
+  | (w, d) :: m, k => if m.any (fun t => t.1 == k) then heldCoef m k else if w = k then d else 0
+
 /-! ## Reference reading of the file (specification side)
 
 `fileObj segs i` is what the file says about objective `i`, read *per index* and
